@@ -94,6 +94,19 @@ class FlatLine(Case):
                 for st, ft in durs:
                     for tol in (0, H / 2, H, 2):
                         yield {"n": len(xs), "x": list(xs), "t": [1000 + D * i for i in range(len(xs))], "D": D, "st": st, "ft": ft, "tol": tol}
+        # decimal readings whose window range is an exact float64 difference (values within a factor of two of each
+        # other), next to a tolerance the range falls just short of, and a stuck reading with a tolerance far below
+        # its resolution: "range strictly below the tolerance" is decided by max - min, not by min + tolerance
+        for xs, tol in (
+            ([2.0, 2.3, 2.0, 2.3, 2.0, 2.3, 2.0, 2.3], 0.3),
+            ([2.0, 2.3, None, 2.3, 2.0, 2.3, 2.0, 2.3], 0.3),
+            ([1013.25] * 8, 1e-14),
+            ([1013.25, 1013.25, 1013.5, 1013.25, 1013.25, 1013.25, 1013.25, 1013.25], 1e-14),
+            ([1e16, 1e16 + 2, 1e16, 1e16 + 2, 1e16, 1e16 + 2], 2.5),
+            ([1e16, 1e16 + 2, 1e16, 1e16 + 2, 1e16, 1e16 + 2], 1.5),
+        ):
+            for st, ft in ((120, 240), (60, 120), (240, 120)):
+                yield {"n": len(xs), "x": list(xs), "t": [1000 + 60 * i for i in range(len(xs))], "D": 60, "st": st, "ft": ft, "tol": tol, "keep": 1}
 
 
 def cases():
